@@ -9,6 +9,7 @@ invocation: the deadline can fall inside an expansion or inside the per-sequence
 scoring loop)."""
 import sys
 
+from .. import runner
 from ..common import lib, viol, ts_of
 from ..obs import obs, fmt
 
@@ -219,32 +220,87 @@ def init_worker():
     _env.install()
 
 
+_BASE_SCRIPT = r"""
+import sys, json
+sys.path.insert(0, sys.argv[1]); sys.path.insert(0, sys.argv[2])
+import logging, warnings
+warnings.filterwarnings("ignore"); logging.disable(logging.CRITICAL)
+from qv import runner
+runner.setup_import_path()
+from qv.checks import C13
+C13.init_worker()
+req = json.load(sys.stdin)
+out = {}
+for text, mode, depth in req["combos"]:
+    b = C13._baseline(mode, text, req["ts"], depth)
+    out["%s|%s|%d" % (text, mode, depth)] = [json.loads(json.dumps(b[0])), b[1], b[2], b[3], b[4], b[5]]
+print(json.dumps(out))
+"""
+
+
+def _fresh_baselines(combos, ts_s):
+    """reference runs (unreachable deadline) in ONE FRESH interpreter per input: the checking processes stay pristine, so a
+    run that times out is the first thing they ever do with a text (state left behind by a timed-out run must not leak)"""
+    import json
+    import os
+    import subprocess
+    from concurrent.futures import ThreadPoolExecutor
+
+    by_text = {}
+    for c in combos:
+        by_text.setdefault(c[0], []).append(c)
+
+    def one(text):
+        p = subprocess.run([sys.executable, "-c", _BASE_SCRIPT, runner.REPO, runner.HERE], input=json.dumps({"combos": by_text[text], "ts": ts_s}), capture_output=True, text=True, env=dict(os.environ, PYTHONWARNINGS="ignore", QV_REPO=runner.REPO))
+        if p.returncode != 0:
+            raise RuntimeError("baseline interpreter failed: " + p.stderr[-600:])
+        return json.loads(p.stdout.strip().splitlines()[-1])
+
+    out = {}
+    with ThreadPoolExecutor(8) as ex:
+        for r in ex.map(one, list(by_text)):
+            out.update(r)
+    return out
+
+
+def _norm(x):
+    import json
+
+    return json.loads(json.dumps(x))
+
+
 def plan(tier, seed):
     inputs = INPUTS_QUICK if tier == "quick" else INPUTS_THOROUGH
     ts_s = "2018-03-07T12:43:00"
-    init_worker()
-    combos = []
-    too_big = []
-    budget = 25.0 if tier == "quick" else 1500.0  # CPU seconds per combination (N expiry points x cost of one run)
+    cand = []
     for text in inputs:
         for mode in ("reads", "ticks", "ticks+nb"):
             for depth in (10, 0):
                 if mode == "ticks+nb" and depth == 0:
                     continue
                 if depth == 0 and len(text) > 20:
-                    too_big.append("{}|{}|depth{}".format(text, mode, depth))  # not even measured: unlimited depth on a long input
                     continue
-                b = _baseline(mode, text, ts_s, depth)
-                if b[1] * b[5] > budget:
-                    too_big.append("{}|{}|depth{} (N={})".format(text, mode, depth, b[1]))
-                    continue
-                combos.append((text, mode, depth, b[1]))
+                cand.append((text, mode, depth))
+    fresh = _fresh_baselines(cand, ts_s)
+    combos = []
+    too_big = []
+    budget = 25.0 if tier == "quick" else 1500.0  # CPU seconds per combination (N expiry points x cost of one run)
+    for text, mode, depth in cand:
+        b = fresh["%s|%s|%d" % (text, mode, depth)]
+        if b[1] * b[5] > budget:
+            too_big.append("{}|{}|depth{} (N={})".format(text, mode, depth, b[1]))
+            continue
+        _base[(mode, text, ts_s, depth)] = (b[0], b[1], b[2], b[3], b[4], b[5])
+        combos.append((text, mode, depth, b[1]))
 
     def gen():
         for text, mode, depth, N in combos:
-            yield ("zero", text, ts_s, mode, depth, 0)
             for k in range(0, N + 1):
                 yield ("k", text, ts_s, mode, depth, k)
+            yield ("zero", text, ts_s, mode, depth, 0)
+            # a run that timed out must leave nothing behind: timed run at expiry point k, then an unlimited run of the same text
+            for k in sorted({0, N // 7, N // 3, N // 2, (2 * N) // 3}):
+                yield ("after", text, ts_s, mode, depth, k)
 
     space = {
         "inputs": len(inputs),
@@ -263,11 +319,19 @@ def run_case(case):
     full, N, L, R, nseq, _cost = _baseline(mode, text, ts_s, depth)
     v = []
     sig = {"mode": mode}
+    if kind == "after":
+        _env.run(mode, text, ts, depth, k + 0.5, "gen")
+        out, st, exc = _env.run(mode, text, ts, depth, 0, "gen")
+        if exc is not None:
+            v.append(viol(dict(sig, kind="raises_after_timeout", exc=type(exc).__name__), "{!r}: unlimited run after a timed-out run raised {!r}".format(text, exc)))
+        elif _norm(out) != _norm(full):
+            v.append(viol(dict(sig, kind="timed_out_run_leaves_state"), "{!r} depth={} clock={}: after a run that expired at event {} the unlimited run yields {} candidates, the fresh-process reference {}".format(text, depth, mode, k + 1, len(out), len(full))))
+        return {"o": "after", "nt": True, "v": v}
     if kind == "zero":
         out, st, exc = _env.run(mode, text, ts, depth, 0, "gen")
         if exc is not None:
             v.append(viol(dict(sig, kind="raises_timeout0", exc=type(exc).__name__), "{!r} timeout=0 raised {!r}".format(text, exc)))
-        elif out != full:
+        elif _norm(out) != _norm(full):
             v.append(viol(dict(sig, kind="timeout0_differs"), "{!r}: timeout=0 stream differs from the unreachable-deadline stream".format(text)))
         if st["deadline_checks"]:
             v.append(viol(dict(sig, kind="timeout0_reads_clock"), "{!r}: timeout=0 still consulted the clock for the deadline {} times".format(text, st["deadline_checks"])))
@@ -280,6 +344,8 @@ def run_case(case):
         v.append(viol(dict(sig, kind="raises", exc=type(exc).__name__, api="ctparse_gen"), "{}: ctparse_gen raised {!r}".format(desc, exc)))
         out = []
     else:
+        out = _norm(out)
+        full = _norm(full)
         if out != full[: len(out)]:
             i = next((i for i in range(min(len(out), len(full))) if out[i] != full[i]), min(len(out), len(full)))
             v.append(viol(dict(sig, kind="not_a_prefix"), "{}: candidate {} differs from the no-deadline stream ({} vs {})".format(desc, i, out[i] if i < len(out) else None, full[i] if i < len(full) else None)))
@@ -312,7 +378,7 @@ def run_case(case):
                 v.append(viol(dict(sig, kind="best_of_prefix"), "{}: prefix is empty but ctparse returned {}".format(desc, r)))
         else:
             best = max(c[4] for c in out)
-            ok = r not in (None, "EMPTY") and any((c[0], c[3], c[4]) == r for c in out if c[4] == best)
+            ok = r not in (None, "EMPTY") and any([c[0], c[3], c[4]] == _norm(r) for c in out if c[4] == best)
             if not ok:
                 v.append(viol(dict(sig, kind="best_of_prefix"), "{}: ctparse returned {} which is not a best element of the {}-candidate prefix (best score {})".format(desc, r, len(out), best)))
     return {
